@@ -44,20 +44,39 @@ def _fun(name):
     return getattr(bct, base)
 
 
-def _thunks(fw, fb, A, B):
+# what each routine may be handed for a drawn dtype (rel_common.admissible).  BINARY: documented
+# for binary networks (bool allowed).  STRUCTURAL: integer-valued output (float32 allowed; the
+# others return ratios / means).  Only betweenness_bin copies its argument to float first (uint8).
+BINARY = {"betweenness_bin", "edge_betweenness_bin", "clustering_coef_bu", "clustering_coef_bd", "transitivity_bu",
+          "transitivity_bd", "distance_bin", "efficiency_bin", "degrees_dir", "degrees_und", "assortativity_bin",
+          "density_dir", "density_und", "edge_nei_overlap_bd", "edge_nei_overlap_bu", "findwalks", "jdegree",
+          "reachdist"}
+STRUCTURAL = {"distance_bin", "distance_wei", "strengths_dir", "strengths_und", "degrees_dir", "degrees_und",
+              "findwalks", "jdegree", "reachdist"}
+
+
+def arg_dtype(name, dtype):
+    base = name.split("@")[0].split("[")[0]
+    return rc.admissible(dtype, binary=base in BINARY, structural=base in STRUCTURAL,
+                         floats_first=base == "betweenness_bin")
+
+
+def _thunks(fw, fb, mkA, mkB):
+    """mkA(name) / mkB(name): a FRESH argument array for routine `name` (so that the drawn memory
+    layout survives; ndarray.copy() would hand over a C-contiguous array)"""
     import bct
     if (fw, fb) == ("strengths_dir", "degrees_dir"):
         # the docstring promises (is, os, str), the code returns str only: compare what is there
         def t1():
-            return bct.strengths_dir(A.copy())
+            return bct.strengths_dir(mkA(fw))
 
         def t2():
-            s = bct.strengths_dir(A.copy())
-            d = bct.degrees_dir(B.copy())
+            s = bct.strengths_dir(mkA(fw))
+            d = bct.degrees_dir(mkB(fb))
             return d if isinstance(s, tuple) else d[2]
         return t1, t2
     f1, f2 = _fun(fw), _fun(fb)
-    return (lambda: f1(A.copy())), (lambda: f2(B.copy()))
+    return (lambda: f1(mkA(fw))), (lambda: f2(mkB(fb)))
 
 
 def exec_job(job):
@@ -72,7 +91,18 @@ def exec_job(job):
         B, Bi = A, []
     rec = dict(prop="C10", fn="%s~%s@%s" % (job["fw"], job["fb"], dom), fw=job["fw"], fb=job["fb"],
                dom=dom, kind=kind, n=n, scale=scale, A=Ai, B=Bi)
-    t1, t2 = _thunks(job["fw"], job["fb"], A, B)
+    # the same matrices as another argument dtype / memory layout: one draw per input, each
+    # member of the pair is handed what ITS routine may get (arg_dtype); A/B above stay exact
+    dt, lay = job.get("dtype", "float64"), job.get("layout", "C")
+    intlike = bool(np.all(A == np.round(A)))
+
+    def mkA(name):
+        return rc.as_variant(A, arg_dtype(name, dt) if intlike else "float64", lay)
+
+    def mkB(name):
+        return rc.as_variant(B, arg_dtype(name, dt) if (intlike or B is not A) else "float64", lay)
+    mkA(job["fw"]), mkB(job["fb"])
+    t1, t2 = _thunks(job["fw"], job["fb"], mkA, mkB)
     rec["out1"], rec["shape1"], rec["raised1"] = rc.call2(t1, kind)
     rec["out2"], rec["shape2"], rec["raised2"] = rc.call2(t2, kind)
     return rec
@@ -97,17 +127,28 @@ def spec_pairs(ctx):
 MAXN = {"findwalks": 7}
 
 
-def add(jobs, pairs, doms, A, src):
+def add(jobs, pairs, doms, A, src, variant=rc.PLAIN):
     n = len(A)
     for p in pairs:
         if p["dom"] not in doms or n > MAXN.get(p["fw"], 99):
             continue
         jobs.append(dict(fn="%s~%s@%s" % (p["fw"], p["fb"], p["dom"]), fw=p["fw"], fb=p["fb"],
-                         dom=p["dom"], kind=p["kind"], src=src, A=A.tolist()))
+                         dom=p["dom"], kind=p["kind"], src=src, A=A.tolist(),
+                         dtype=variant[0], layout=variant[1]))
+
+
+def family(A):
+    """the dtype universe of one input: 0/1 -> DT_BIN, other small integers -> DT_COUNT (the
+    binarised second input of the weight-ignoring pairs is 0/1 anyway), k/1000 -> layouts only"""
+    A = np.asarray(A)
+    if np.all((A == 0) | (A == 1)):
+        return rc.DT_BIN
+    return rc.DT_COUNT if np.all(A == np.round(A)) else rc.DT_FLOAT
 
 
 INTW = [1, 2, 3]
 UNITW = [0.125, 0.25, 0.3, 0.5, 0.7, 1.0]      # weights in (0,1], all k/1000
+WSETS = [INTW, UNITW, [2], [1.0], [0.5], [1, 3], [0.25, 1.0]]   # single values: every weight ties
 
 
 def weigh(rng, A, vals, und):
@@ -157,21 +198,47 @@ def build_jobs(ctx, pairs):
                 continue
             A = inputs.mat_from_edges(n, edges, und=False)
             add(jobs, pairs, ("wdir",), weigh(rng, A, INTW, False), "model-dir-weighted")
-    # --- random n<=10: sparse (disconnected, isolated nodes), dense, tie-rich
+    # --- a sample of the model inputs again as another argument dtype / memory layout
+    plain = {}
+    for j in jobs:
+        plain.setdefault((j["src"], str(j["A"])), j)
+    by_src = {}
+    for (src, _), j in sorted(plain.items()):
+        by_src.setdefault(src, []).append(j)
+    doms_of = {"model-und": ("01", "01und"), "model-dir": ("01",), "model-und-weighted": ("symw", "wund"),
+               "model-dir-weighted": ("wdir",)}
+    for src, cap in (("model-und", 120), ("model-dir", 80), ("model-und-weighted", 80), ("model-dir-weighted", 60)):
+        for j in inputs.sample(rng, by_src.get(src, []), cap if ctx.quick else 10 * cap):
+            A = np.array(j["A"], dtype=float)
+            add(jobs, pairs, doms_of[src], A, src + "-variant", rc.draw_variant(rng, family(A)))
+    # --- random n<=10: sparse (disconnected, isolated nodes), dense, tie-rich; structured families
+    #     (paths, cycles, stars, complete, bipartite, caterpillars, rings of cliques, equal/unequal
+    #     components, isolated nodes) undirected and oriented; density, isolation, weight set, dtype
+    #     and layout are independent draws
     nrand = 60 if ctx.quick else 1500
     for k in range(nrand):
         n = rng.randint(6, 10)
         p = rng.choice([0.1, 0.2, 0.35, 0.6, 0.9])
         U = inputs.rand_graph(rng, n, p, und=True)
-        D = inputs.rand_graph(rng, n, p / (1 if k % 3 else 2), und=False)
-        if k % 5 == 0:                        # an isolated node
+        D = inputs.rand_graph(rng, n, p / rng.choice([1, 1, 2]), und=False)
+        if rng.random() < 0.2:                # an isolated node
             v = rng.randrange(n)
             U[v, :] = 0; U[:, v] = 0; D[v, :] = 0; D[:, v] = 0
-        add(jobs, pairs, ("01", "01und"), U, "random-und")
-        add(jobs, pairs, ("01",), D, "random-dir")
-        add(jobs, pairs, ("symw", "wund"), weigh(rng, U, rng.choice((INTW, UNITW)), True),
-            "random-und-weighted")
-        add(jobs, pairs, ("wdir",), weigh(rng, D, INTW, False), "random-dir-weighted")
+        inputs_k = [(U, D, "random")]
+        if rng.random() < 0.6:
+            name, m, edges = rc.structured_support(rng, 5, 10)
+            inputs_k.append((inputs.mat_from_edges(m, edges, und=True),
+                             inputs.mat_from_edges(m, rc.orient(rng, edges), und=False), "struct-" + name))
+        for U, D, src in inputs_k:
+            dv = lambda M: rc.draw_variant(rng, family(M), p_plain=0.4)
+            add(jobs, pairs, ("01", "01und"), U, src + "-und", dv(U))
+            add(jobs, pairs, ("01",), D, src + "-dir", dv(D))
+            if U.any():
+                W = weigh(rng, U, rng.choice(WSETS), True)
+                add(jobs, pairs, ("symw", "wund"), W, src + "-und-weighted", dv(W))
+            if D.any():
+                W = weigh(rng, D, rng.choice([INTW, INTW, [2], [1, 3]]), False)
+                add(jobs, pairs, ("wdir",), W, src + "-dir-weighted", dv(W))
     return jobs
 
 
@@ -190,8 +257,9 @@ def run(ctx):
     bad = [(j["fn"], v[0]) for j, v in zip(jobs, verdicts) if v[0] in BAD_SKIPS]
     if bad:
         raise core.MachineryError("harness produced records outside the spec's table/domains: %s" % bad[:5])
-    ctx.judge(jobs, recs, verdicts, what=rc.describe)
+    ctx.judge(jobs, rc.tag_failures(ctx, jobs, recs, verdicts), verdicts, what=rc.describe)
     ctx.extra["verdict_counts"] = rc.count_verdicts(recs, verdicts)
+    ctx.extra["argument_variants"] = rc.variant_counts(jobs)
     rc.note_never_judged(ctx, recs, verdicts)
     seen, per_pair = set(), {}
     for j, r, v in zip(jobs, recs, verdicts):
@@ -203,11 +271,15 @@ def run(ctx):
     ctx.extra["pairs"] = per_pair
     ctx.rule = ("%d pairs of spec/Relations.tla!C10Pairs, each evaluated on: every 0/1 undirected graph "
                 "n<=5 and 0/1 digraph n<=4 (TLC-enumerated; digraphs n=4 %s), the same supports with "
-                "integer and (0,1] weights for the symmetric / weight-ignoring pairs, seeded random n in "
-                "6..10 (sparse/disconnected/isolated node/dense); non-trivial = distinct (pair, input) "
+                "integer and (0,1] weights for the symmetric / weight-ignoring pairs, a sample of these again "
+                "as another argument dtype (bool/int32/int64/uint8/float32, each member of a pair handed what "
+                "its routine's domain allows) and memory layout (Fortran, transposed, window, strided), seeded "
+                "random n in 6..10 (sparse/disconnected/isolated node/dense) and structured families (paths, "
+                "cycles, stars, complete, bipartite, caterpillars, rings of cliques, equal/unequal components; "
+                "also oriented) with weight sets incl. single values, all choices RNG-drawn; non-trivial = distinct (pair, input) "
                 "judged (not skipped) whose first output has a nonzero entry"
                 % (len(pairs), "sampled" if ctx.quick else "all"))
-    k = next((i for i, j in enumerate(jobs) if j["src"] == "random-und-weighted"), 0)
+    k = next((i for i, j in enumerate(jobs) if j["src"].endswith("-und-weighted") and j["src"][:5] != "model"), 0)
     ctx.add_sample("model-input", dict(job=jobs[40], record=recs[40], verdict=verdicts[40]))
     ctx.add_sample("random-input", dict(job=jobs[k], record=recs[k], verdict=verdicts[k]))
     ctx.assumptions += [
